@@ -21,6 +21,13 @@ EXPLANATION += (
     " K8: every return of a wrap<T>/unwrap<T> specialisation hands back a value that depends (def-use closure over "
     "initialisers, assignments, element stores and memcpy-like calls in the clang AST) on the function's argument; a path "
     "returning a default-constructed or constant value (an 'empty input' short-cut that loses the shape) is reported.")
+EXPLANATION += (
+    " K9: every copying loop of the vector/matrix converters starts at 0, tests `<` and steps counter and data pointer by +1. "
+    "K10: the error guards of each converter (possibly several ifs / else-ifs) are evaluated as a boolean function of the facts they "
+    "test and compared with the required rejection condition on every row of the truth table. K11: arrays are created mxREAL, with "
+    "the extents the single stores rely on and the class ids the readers test. K12: mexCallMATLAB receives one output, exactly the "
+    "prepared inputs and the class name chosen on the same path; mxGetProperty/mxGetField read element 0; the RTTI name buffer is "
+    "length+1; wrap_shared_ptr returns create_object's result on both paths. K13: the unspecialised wrap<T>/unwrap<T> raise.")
 ASSUMPTIONS = [
     "clang 14 parser/Sema; the stubs under /verif/stubs declare the documented MEX C API signatures",
     "LP64 size table (the 32-bit arm of mxUINT32OR64_CLASS is analysed in the thorough tier when the "
